@@ -89,7 +89,7 @@ def spell_range(rng, r):
 def gen_doc(rng):
     """Recipe + materialiser for the document sweep."""
     kind = rng.choice(['html', 'html', 'html', 'xhtml', 'xml', 'iframe'])
-    langs = ['en', 'en-US', 'de', 'de-DE-1996', '', 'EN-us', 'x-en', 'a-de', 'en_US', 'de-a_b-DE', 'en_']
+    langs = ['en', 'en-US', 'de', 'de-DE-1996', '', 'EN-us', 'x-en', 'a-de', 'en_US', 'de-a_b-DE', 'en_', 'de-strasse', 'de-straße', 'en-us']
     budget = [rng.randint(2, 12)]
 
     def lang_attr(e, xml_style):
@@ -232,7 +232,11 @@ def run_unit(u):
                        extra=[(.75, lambda r, d: ('lang', [r.choice(['en', 'EN', 'en-US', '*-US', 'de', 'de-*-1996', '*', '', 'fr', 'x', '*-en',
                                                                      'late', 'a', 'en-*', 'en_US', 'de-DE', 'en_'])
                                                            for _ in range(r.choice([1, 1, 2]))])),
-                              (.15, lambda r, d: ('lang', [r.choice(['de', 'en', '*'])]))])
+                              (.15, lambda r, d: ('lang', [r.choice(['de', 'en', '*'])])),
+                              # two ranges of one list that are different strings but equal under Unicode case folding (ß/ss, ſ/s):
+                              # ranges are compared ASCII-case-insensitively, nothing folds them into one
+                              (.08, lambda r, d: ('lang', r.choice([['de-straße', 'de-strasse'], ['de-strasse', 'de-straße'], ['en-uſ', 'en-us'],
+                                                                    ['*-straße', 'de-strasse', 'fr']])))])
         for _ in range(u['n']):
             tops, how, kind = gen_doc(rng)
             target = ['doc']
